@@ -42,7 +42,7 @@ fn gen_argv(rng: &mut Rng) -> Vec<Vec<u8>> {
     if rng.chance(29, 30) { let v = pick(rng, 6, &[b"link", b"dep-info,metadata,link", b"dep-info,link", b"metadata", b"dep-info,metadata", b"link,link", b"dep-info", b"asm", b"link,llvm-ir", b"", b"obj"]); groups.push(g(rng, "--emit", &v)); }
     if rng.chance(1, 40) { groups.push(g(rng, "--emit", b"link")); }
     if rng.chance(29, 30) { let v = pick(rng, 3, &[b"/t/deps", b"out", b"../o", b"", b"\xfe"]); groups.push(g(rng, "--out-dir", &v)); }
-    for _ in 0..rng.below(4) { let v = pick(rng, 7, &[b"opt-level=3", b"embed-bitcode=no", b"extra-filename=-abc", b"profile-use=p.prof", b"metadata=1f", b"debuginfo=2", b"extra-filename=", b"extra-filename", b"incremental=/x", b"incremental", b"profile-use", b"", b"=x", b"a=b=c"]);
+    for _ in 0..rng.below(4) { let v = pick(rng, 7, &[b"opt-level=3", b"embed-bitcode=no", b"extra-filename=-abc", b"profile-use=p.prof", b"metadata=1f", b"debuginfo=2", b"extra-filename=", b"extra-filename", b"incremental=/x", b"incremental", b"save-temps", b"save-temps=yes", b"split-debuginfo=unpacked", b"profile-use", b"", b"=x", b"a=b=c"]);
         let f = *rng.pick(&["-C", "--codegen"]); groups.push(g(rng, f, &v)); }
     for _ in 0..rng.below(2) { let v = pick(rng, 6, &[b"profile", b"profile=y", b"profile=yes", b"profile=on", b"profile=no", b"unstable-options", b"profile="]); groups.push(g(rng, "-Z", &v)); }
     for _ in 0..rng.below(4) { let v = pick(rng, 8, &[b"dependency=/t/deps", b"dependency=deps", b"native=n", b"native=/abs/n", b"all=n2", b"crate=c", b"framework=f", b"n", b"=x", b"", b"native="]); groups.push(g(rng, "-L", &v)); }
